@@ -404,6 +404,12 @@ CHAIN2 = {'pkgs': {'p0': {'task': [
      'deps': [['alg', 'p0', 'task', 'a0', None, None]], 'fb': []}]}}}
 
 
+TASK_ASPECT = {'pkgs': {'p0': {
+    'task': [{'name': 'a0', 'svs': [{'name': 's0', 'vals': [['v0', [1, 0, 0]]]}], 'deps': [], 'fb': []}],
+    'analysis': [{'name': 'z0', 'svs': [{'name': 's0', 'vals': [['v0', [1, 0, 0]]]}],
+                  'deps': [['alg', 'p0', 'task', 'a0', None, None]], 'fb': []}]}}}
+
+
 def fault_study(ctx, oracle):
     '''histories in which the database refuses a run id during a dispatch
     (farm.dispatch: "allow db impl to throw an exception via rerunid()": the
@@ -423,6 +429,13 @@ def fault_study(ctx, oracle):
     cases.insert(2, {'seed': 'c01-kept-job-sent-while-ancestor-pending', 'desc': CHAIN2, 'targets': ['T1'], 'nev': 0,
                      'events': [['reg', 1, 0, True], ['org', [1], None, [1]], ['tickf', 1],
                                 ['org', [0], None, [1]], ['tick']]})
+    # the window between a release and the bookkeeping that follows it in
+    # farm.dispatch, seen from the all-targets clause: an analysis and its
+    # upstream task pending together, the run id of the task refused, then an
+    # ordinary dispatch (the analysis must wait for the kept task)
+    cases.insert(3, {'seed': 'fault-directed-aspect', 'desc': TASK_ASPECT, 'targets': ['T1', 'T2'], 'nev': 0,
+                     'events': [['reg', 1, 0, True], ['org', [0, 1], None, [1, 2]], ['tickf', 1], ['tick'],
+                                ['tick']]})
     out = ctx.harness('drive_sched.py', {'cases': cases})
     nf = 0
     for c, r in zip(cases, out['cases']):
@@ -484,6 +497,9 @@ def search_failing_input(ctx, results, oracle, profiles, deep_done):
         # bookkeeping that follows it in farm.dispatch
         fcases = [{'seed': '%d:faultsearch:%d' % (ctx.seed, i), 'nev': 50, 'profile': 'fault',
                    'nalg': 6 if i % 3 else 8, 'shape': 'fan' if i % 2 else 'random'} for i in range(200)]
+        fcases.insert(0, {'seed': 'fault-directed-aspect', 'desc': TASK_ASPECT, 'targets': ['T1', 'T2'], 'nev': 0,
+                          'events': [['reg', 1, 0, True], ['org', [0, 1], None, [1, 2]], ['tickf', 1], ['tick'],
+                                     ['tick']]})
         out = ctx.harness('drive_sched.py', {'cases': fcases})
         for c, r in zip(fcases, out['cases']):
             r['seed'] = c['seed']
